@@ -311,5 +311,100 @@ def replay_tapes(case):
     check_sampled(Ctx(PROPERTY, "tapes", "quick", 0, 0, 1), tuple(case))
 
 
+# ---------------------------------------------------------------- faults while further commands are already queued
+BATCHES = [
+    ["MKD /p", "MKD /p/q", "CWD /p", "MLST q", "RNFR q", "RNTO r", "RMD r", "CDUP", "DELE /nofile", "RMD /p", "PWD"],
+    ["MKD /a", "MKD /b", "RNFR /a", "RNTO /b/a", "MLST /b/a", "RMD /b/a", "RMD /b", "SYST", "PWD"],
+    ["DELE /x", "MKD /x", "MKD /x", "CWD /x", "PWD", "CDUP", "RMD /x", "RMD /x", "NOOP", "PWD"],
+]
+
+
+async def _pipelined(loop, batch_i, k, exc, split):
+    ctl = harness.Ctl()
+    ctl.fail_at = {k} if k else set()
+    ctl.exc_factory = EXC[exc]
+    server = aioftp.Server(path_io_factory=instrument(aioftp.MemoryPathIO, ctl), wait_future_timeout=2)
+    await server.start(HOST, PORT)
+    raw = harness.Raw(HOST, PORT, patience=8)
+    await raw.connect()
+    await raw.cmd("USER anonymous")
+    batch = BATCHES[batch_i]
+    data = "".join(c_ + "\r\n" for c_ in batch).encode()
+    # the whole batch in one segment, or cut in two at an arbitrary byte
+    if split:
+        cut = (split * 7) % len(data)
+        raw.send(data[:cut])
+        await asyncio.sleep(0.01)
+        raw.send(data[cut:])
+    else:
+        raw.send(data)
+    replies = []
+    for _ in batch:
+        code, _l = await raw.reply(8)
+        replies.append(code)
+        if code in ("EOF", "SILENCE", "GARBAGE"):
+            break
+    quiet, extra = await raw.silence(1.0)
+    after = (await raw.cmd("PWD"))[0] if replies[-1] != "EOF" else "EOF"
+    raw.close()
+    await asyncio.wait_for(server.close(), 1000)
+    return dict(replies=replies, fired=list(ctl.fired), calls=ctl.n, extra=None if quiet else extra, after=after, batch=batch)
+
+
+def judge_pipelined(case, out, baseline):
+    batch_i, k, exc, split = case
+    detail = dict(batch=out["batch"], k=k, exc=exc, replies=out["replies"], fired=out["fired"], baseline=baseline)
+    op = out["fired"][0][1] if out["fired"] else "none"
+
+    def bad(sym):
+        raise Violation(f"C13/pipelined/{op}/{sym}", detail)
+
+    if "EOF" in out["replies"]:
+        bad("session_closed")
+    if "SILENCE" in out["replies"] or len(out["replies"]) != len(out["batch"]):
+        bad("queued_command_never_answered")
+    if out["extra"]:
+        bad("extra_reply")
+    if out["fired"] and "451" not in out["replies"]:
+        bad("fault_not_reported_as_451")
+    if out["after"] != "257":
+        bad("session_unusable_afterwards")
+    # (the order of replies to pipelined commands is not judged: unknown verbs are answered at parse time, handlers when
+    #  their task runs, failures when the dispatcher collects the task - none of the listed properties orders them)
+
+
+def pipelined_cases(tier):
+    out = []
+    for bi, batch in enumerate(BATCHES):
+        dry = simnet.run(lambda loop: _pipelined(loop, bi, 0, "oserror", 0))
+        for k in range(1, dry["calls"] + 1):
+            for split in ((0, 3) if tier == "quick" else (0, 1, 3, 5, 8)):
+                out.append((bi, k, EXC_ROTATION[k % len(EXC_ROTATION)] if k % 2 else "oserror", split))
+    return out
+
+
+_BASE = {}
+
+
+def part_pipelined(ctx):
+    for case in pipelined_cases(ctx.tier)[ctx.shard::ctx.nshards]:
+        bi = case[0]
+        if bi not in _BASE:
+            _BASE[bi] = simnet.run(lambda loop: _pipelined(loop, bi, 0, "oserror", 0))["replies"]
+        out = simnet.run(lambda loop: _pipelined(loop, *case))
+        ctx.count(case, bool(out["fired"]), sample=dict(batch=out["batch"], failing_backend_call=case[1], exception=case[2], replies=out["replies"]),
+                  classes=["batch_%d" % bi, "fired" if out["fired"] else "not_reached"])
+        try:
+            judge_pipelined(case, out, _BASE[bi])
+        except Violation as v:
+            ctx.fail(v.sig, dict(kind="pipelined", case=list(case)), v.detail)
+
+
+def replay_pipelined(case):
+    c_ = tuple(case["case"])
+    base = simnet.run(lambda loop: _pipelined(loop, c_[0], 0, "oserror", 0))["replies"]
+    judge_pipelined(c_, simnet.run(lambda loop: _pipelined(loop, *c_)), base)
+
+
 def plan(tier):
-    return [("enumerate", 16), ("tapes", 8)]
+    return [("enumerate", 16), ("tapes", 8), ("pipelined", 4)]
